@@ -25,6 +25,13 @@ PED = [("/d/f.txt", "/d/out"), ("/d/nofile", "/d/sub/o2"), ("/d/../master.c", "/
 POL_FULL = ["allow", "echo"]
 POL_ERR = ["raise", "raiseon=[d/sub]", "raiseon=[/d/f.txt]", "raiseon=[/d/sub]", "odd=[array]", "odd=[emptyarray]",
            "odd=[float]", "odd=[float0]", "odd=[object]", "odd=[neg]", "odd=[two]"]
+POL_KIND = ["ro", "wo", "ropath=[/d/f.txt]", "ropath=[/d/out]"]
+SESSIONS = [("/d/f.txt", "a:x,w,q"), ("/d/f.txt", "a:x,x"), ("/d/f.txt", "a:x,w:/d/out,e:/d/out,f,f:/d/other,w,q"),
+            ("/d/f.txt", "a:x,e:/d/obj.c,E:/d/obj.c,r:/d/inc.h,W:/d/f.txt,q,Q"), ("/d/nofile", "w,a:hello,w,W,x"),
+            ("/d/nofile", "a:y,w:out2,e:out2,r:out2,x"), ("/d/../x", "a:x,w,f:/d/f.txt,w,x"),
+            ("/d", "w,a:x,w,x,Q"), ("/d/f.txt", "r,r:/d/nofile,w:/d/sub,w:/d/sub/n,x"),
+            ("/d/f.txt", "f:/../outside.txt,w,e:/../outside.txt,r://abs,w:/d/../x,Q"), ("/d/f.txt", "q,w"),
+            ("/d/f.txt", "a:1,a:2,W,W:/d/f.txt,e,E,f,x")]
 POL_FEW = ["deny", "fixed=[/a/a]", "fixed=[/d]", "fixed=[/../outside.txt]", "fixed=[//nonexistent-c15/x/y]",
            "fixed=[/d/new]", "fixed=[]"]
 INC_BASES = ["x.c", "t/x.c", "t/u/x.c"]
@@ -57,6 +64,7 @@ class C15(Prop):
                 "NV.C15.include_path_confined_config", "NV.C15.judge_lp_model",
                 "NV.C15.judge_cvp_model", "NV.C15.judge_inc_model", "NV.C15.judge_sn_model",
                 "NV.C15.model_satisfies_spec", "NV.C15.model_satisfies_spec_absent", "NV.C15.model_satisfies_spec_present",
+                "NV.C15.ed_session_satisfies_spec", "NV.C15.ed_session_satisfies_spec_absent", "NV.C15.segOk_edStep",
                 "NV.C15.efun_segOk", "NV.C15.fold_ok", "NV.C15.check_valid_path_error_fails_closed",
                 "NV.C15.check_valid_path_absent_or_odd_approves", "NV.C15.mediation_propagates_errors",
                 "NV.C15.mediated_sites", "NV.C15.inventory_covers_efuns", "NV.C15.efun_surface_modelled"]
@@ -198,7 +206,8 @@ class C15(Prop):
             for s in ["/d/f", "", "/", "//etc", "/../x", "d/./f", "/d/."]] +
            ["usn1 " + br(s) for s in ["//a/b.c.c", "a//b", ".c", "x.c", "/", "", "a.c.cc", "/.c.c", "abc"]] +
            ["uinc1 %s %s" % (br(b), br(n)) for b in INC_BASES for n in INC_NAMES])
-        for pol in POL_FULL + POL_FEW + POL_ERR + ["ABSENT"]:
+        for pol in POL_FULL + POL_FEW + POL_ERR + POL_KIND + ["ABSENT"]:
+            mk("edsession-%s" % pol, [pl(pol)] + ["es %s %s" % (br(f), c) for f, c in SESSIONS])
             paths = P1 if pol in POL_FULL else ["/d/f.txt", "/d/sub", "/../outside.txt", "", "/d/nofile"]
             for e in EFUN1:
                 mk("%s-%s" % (e, pol), [pl(pol)] + ["fx %s %s" % (e, br(p)) for p in paths])
@@ -282,7 +291,7 @@ class C15(Prop):
                     base = rng.choice(INC_BASES + ["a/b/c/d.c", "sub/..x/y.c"])
                     lines.append("uinc1 %s %s" % (br(base), br(nm[:100])))
             elif k == 1:    # efun calls
-                pol = rng.choice(POL_FULL * 3 + POL_FEW + POL_ERR + ["ABSENT", "fixed=" + br(self.rand_sys_path(rng)),
+                pol = rng.choice(POL_FULL * 3 + POL_FEW + POL_ERR + POL_KIND + ["ABSENT", "fixed=" + br(self.rand_sys_path(rng)),
                                                                      "raiseon=" + br(self.rand_sys_path(rng))])
                 absent = pol == "ABSENT"
                 lines.append(pl(pol))
@@ -298,6 +307,21 @@ class C15(Prop):
                             lines.append("fx %s %s" % (rng.choice(EFUNS), br(p)))
                     if rng.chance(1, 6) and not absent:
                         lines.append("policy " + rng.choice(POL_FULL + POL_FEW + POL_ERR))
+            elif k == 2 and rng.chance(1, 2):    # editing sessions
+                pol = rng.choice(POL_FULL + POL_KIND * 2 + POL_FEW + POL_ERR + ["ABSENT"])
+                lines.append(pl(pol))
+                names = ["/d/f.txt", "/d/out", "/d/sub/n", "/d/nofile", "out2", "/d", "/d/../x", "/a/a", "/../outside.txt", "/d/obj.c"]
+                for _ in range(6):
+                    cs = []
+                    for _ in range(rng.range(1, 8)):
+                        c = rng.choice(["a", "e", "E", "f", "r", "w", "W", "w", "x", "q", "Q", "w"])
+                        if c == "a":
+                            cs.append("a:t%d" % rng.below(9))
+                        elif c in ("x", "q", "Q") or rng.chance(1, 2):
+                            cs.append(c)
+                        else:
+                            cs.append(c + ":" + rng.choice(names))
+                    lines.append("es %s %s" % (br(rng.choice(names)), ",".join(cs)))
             else:           # include names
                 for _ in range(10):
                     comps = ["..", ".", "", "a", "d", "inc.h", "std.h", "include", "t", "x"]
